@@ -739,7 +739,27 @@ pub fn gen_pool(master: u64, job: u64, tier: Tier) -> Pool {
         max_members: 2,
     };
     let mut files = Vec::new();
-    for _ in 0..nf {
+    for i in 0..nf {
+        if i == 0 && job % 3 == 0 {
+            // a signature-dense file: thousands of look-alike headers the scanner has to probe
+            // and reject, then one real member (stresses anything that is counted or cached per probe)
+            let n = *rng.pick(&[1500usize, 5000, 9000, 14000]);
+            let sig: &[u8] = match rng.below(4) {
+                0 => &[0x78, 0x9c, 0x06, 0x00],
+                1 => &[0x1f, 0x8b, 0x08, 0x00],
+                2 => &[0x78, 0x01, 0xff, 0x07],
+                _ => &[0x50, 0x4b, 0x03, 0x04],
+            };
+            let mut f = Vec::with_capacity(n * 4 + 8192);
+            for _ in 0..n {
+                f.extend_from_slice(sig);
+            }
+            let plain = workload::gen_plaintext(&mut rng, 2000);
+            let raw = workload::Compressor::random(&mut rng).compress(&plain);
+            f.extend_from_slice(&workload::wrap(&mut rng, &workload::Wrapper::Zlib(2), &raw, &plain));
+            files.push(Arc::new(f));
+            continue;
+        }
         files.push(Arc::new(workload::gen_file(&mut rng, sc).file));
     }
     let mut streams = Vec::new();
@@ -1052,6 +1072,10 @@ impl Engine for SchedEngine {
         aux_reference_process(args)
     }
 
+    fn thorough_extra(&self, ctx: &ExtraCtx) -> Option<ExtraResult> {
+        Some(miri_arm(ctx))
+    }
+
     fn run_job(&self, ctx: &JobCtx) -> JobResult {
         let mut res = JobResult {
             job: ctx.job,
@@ -1232,6 +1256,24 @@ impl Engine for SchedEngine {
             digest: 0,
             detail: m,
         };
+        if doc.get_str("engine") == Some("miri") {
+            let root = std::path::PathBuf::from(doc.get_str("root").unwrap_or("/verif"));
+            let full = doc.get_str("mode") == Some("full");
+            let r = miri_run(&root, doc.get_u64("seed").unwrap_or(0), full, doc.get_u64("which").unwrap_or(0));
+            return match r {
+                MiriOutcome::Pass => ReplayOutcome {
+                    clause: None,
+                    digest: 0,
+                    detail: "miri run passes".into(),
+                },
+                MiriOutcome::Fail(msg) => ReplayOutcome {
+                    clause: Some("miri_error".into()),
+                    digest: 0,
+                    detail: msg,
+                },
+                MiriOutcome::Unavailable(msg) => bad(format!("miri unavailable: {}", msg)),
+            };
+        }
         let mut pool = if let Some(p) = doc.get("pool") {
             match pool_from_json(p) {
                 Ok(p) => p,
@@ -1313,5 +1355,140 @@ impl Engine for SchedEngine {
                 }
             }
         }
+    }
+}
+
+// ---------------------------------------------------------------------------------------------
+// Miri arm (thorough tier): Miri is itself a seeded deterministic scheduler that preempts at
+// basic-block granularity and reports data races and reads of uninitialised memory.
+
+pub enum MiriOutcome {
+    Pass,
+    Fail(String),
+    Unavailable(String),
+}
+
+fn miri_flags(seed: u64, full: bool) -> String {
+    let mut f = format!("-Zmiri-seed={} -Zmiri-preemption-rate=0.05", seed);
+    if !full {
+        // data-race and uninitialised-read detection stay on
+        f.push_str(" -Zmiri-disable-stacked-borrows -Zmiri-disable-validation");
+    }
+    f
+}
+
+pub fn miri_run(root: &std::path::Path, seed: u64, full: bool, which: u64) -> MiriOutcome {
+    let manifest = root.join("miri").join("Cargo.toml");
+    let out = std::process::Command::new("cargo")
+        .arg("+nightly")
+        .arg("miri")
+        .arg("run")
+        .arg("--offline")
+        .arg("--manifest-path")
+        .arg(&manifest)
+        .arg("--")
+        .arg(which.to_string())
+        .env("MIRIFLAGS", miri_flags(seed, full))
+        .env("CARGO_NET_OFFLINE", "true")
+        .env_remove("RUSTFLAGS")
+        .stdin(std::process::Stdio::null())
+        .output();
+    let out = match out {
+        Ok(o) => o,
+        Err(e) => return MiriOutcome::Unavailable(e.to_string()),
+    };
+    let stdout = String::from_utf8_lossy(&out.stdout);
+    let stderr = String::from_utf8_lossy(&out.stderr);
+    if out.status.success() && stdout.contains("c14-miri ok") {
+        return MiriOutcome::Pass;
+    }
+    if stderr.contains("could not compile") || stderr.contains("error: no such command") || stderr.contains("is not installed") {
+        return MiriOutcome::Unavailable(stderr.lines().filter(|l| l.starts_with("error")).take(3).collect::<Vec<_>>().join(" | "));
+    }
+    let msg: Vec<&str> = stderr
+        .lines()
+        .filter(|l| l.contains("error") || l.contains("Undefined Behavior") || l.contains("panicked") || l.contains("Data race") || l.contains("differs"))
+        .take(4)
+        .collect();
+    MiriOutcome::Fail(format!("exit {:?}: {}", out.status.code(), msg.join(" | ")))
+}
+
+fn miri_arm(ctx: &ExtraCtx) -> ExtraResult {
+    let n_full = util::env_u64("VERIF_MIRI_FULL").unwrap_or(16);
+    let n_fast = util::env_u64("VERIF_MIRI_FAST").unwrap_or(32);
+    let mut plans: Vec<(u64, bool, u64)> = Vec::new();
+    for k in 0..n_full {
+        plans.push((ctx.master_seed.wrapping_mul(1000).wrapping_add(k), true, k % 3));
+    }
+    for k in 0..n_fast {
+        plans.push((ctx.master_seed.wrapping_mul(1000).wrapping_add(500 + k), false, k % 3));
+    }
+    let next = std::sync::atomic::AtomicUsize::new(0);
+    let results: Mutex<Vec<(u64, bool, u64, MiriOutcome)>> = Mutex::new(Vec::new());
+    std::thread::scope(|s| {
+        for _ in 0..ctx.workers.max(1).min(plans.len().max(1)) {
+            s.spawn(|| loop {
+                let i = next.fetch_add(1, std::sync::atomic::Ordering::SeqCst);
+                if i >= plans.len() {
+                    break;
+                }
+                let (seed, full, which) = plans[i];
+                let r = miri_run(&ctx.root, seed, full, which);
+                results.lock().unwrap().push((seed, full, which, r));
+            });
+        }
+    });
+    let results = results.into_inner().unwrap();
+    let mut violations = Vec::new();
+    let mut harness_errors = Vec::new();
+    let (mut pass_full, mut pass_fast, mut unavailable) = (0u64, 0u64, 0u64);
+    for (seed, full, which, r) in results.iter() {
+        match r {
+            MiriOutcome::Pass => {
+                if *full {
+                    pass_full += 1
+                } else {
+                    pass_fast += 1
+                }
+            }
+            MiriOutcome::Unavailable(m) => {
+                unavailable += 1;
+                if harness_errors.is_empty() {
+                    harness_errors.push(format!("miri arm unavailable: {}", m));
+                }
+            }
+            MiriOutcome::Fail(msg) => {
+                violations.push(Violation {
+                    clause: "miri_error".into(),
+                    key: format!("miri_error:{}:{}:{}", if *full { "full" } else { "fast" }, seed, which),
+                    what: format!("Miri (seed {}, {} mode, stream {}) reports: {}", seed, if *full { "full" } else { "fast" }, which, msg),
+                    replay: J::obj()
+                        .set("engine", J::str("miri"))
+                        .set("workload_hash", J::Str(format!("stream{}", which)))
+                        .set("plan_key", J::Str(format!("seed{}", seed)))
+                        .set("root", J::Str(ctx.root.display().to_string()))
+                        .set("mode", J::str(if *full { "full" } else { "fast" }))
+                        .set("seed", J::u(*seed))
+                        .set("which", J::u(*which))
+                        .set("miriflags", J::Str(miri_flags(*seed, *full))),
+                });
+            }
+        }
+    }
+    ExtraResult {
+        name: "miri".into(),
+        evaluations: pass_full + pass_fast + violations.len() as u64,
+        evidence: J::obj()
+            .set("name", J::str("Miri arm: 2 threads x (decompress_deflate_stream + recompress_deflate_stream) on a shared ~200 byte stream after a sequential reference; Miri's seeded scheduler preempts at basic-block granularity; data-race and uninitialised-read detection on"))
+            .set("full_mode_seeds_passed", J::u(pass_full))
+            .set("fast_mode_seeds_passed", J::u(pass_fast))
+            .set("failed", J::u(violations.len() as u64))
+            .set("unavailable", J::u(unavailable))
+            .set("first_seed", J::u(ctx.master_seed.wrapping_mul(1000)))
+            .set("flags_full", J::Str(miri_flags(0, true)))
+            .set("flags_fast", J::Str(miri_flags(0, false)))
+            .set("limits", J::str("cannot cross the zstd FFI: only the pure-Rust entry points run under Miri")),
+        violations,
+        harness_errors,
     }
 }
